@@ -515,8 +515,8 @@ class GeoInterp:
                     oks = [self._le(cand, o) if f == 'min' else self._le(o, cand) for o in forms]
                     if all(x is True for x in oks):
                         return ('N', cand)
-                raise AnalysisError(f'geometry expression: order of `{s}` not decided by the '
-                                    f'area invariants')
+                raise AnalysisError(f'geometry expression: order of `{src(e)}` not decided by '
+                                    f'the area invariants')
         if f.split('.')[-1] == 'MappingProxyType' and len(e.args) == 1 and not kw:
             return ev(e.args[0])        # a read-only view of the mapping it wraps
         if f in ('cast', 'typing.cast') and len(e.args) == 2 and not kw:
